@@ -72,7 +72,7 @@ func main() {
 			bad = true
 		}
 		writeIfChanged(filepath.Join(out, "Formulas.lean"), s)
-		writeIfChanged(filepath.Join(out, "FormulaTies.lean"), ties)
+		writeIfChanged(filepath.Join(out, "FormulaTies.lean"), splitTies(out, ties))
 	case "asm":
 		bad = !runAsm(repo, out)
 	case "facts":
